@@ -163,22 +163,34 @@ Definition pair_safe (qws : N -> bool) (n v : str) : bool :=
 
 (* an operand of a declaration utility as the printers write it: a quoted
    word (an option, "--", a name without value) or name=Qvalue *)
-Inductive operand := OpWord (s : str) | OpAssign (name value : str).
+Inductive operand :=
+| OpWord (s : str)
+| OpAssign (name value : str)        (* name=Qvalue, an ordinary name *)
+| OpPair (name value : str).         (* Qname=Qvalue, any name *)
 
 Definition operand_text (qws : N -> bool) (o : operand) : str :=
   match o with
   | OpWord s => quote qws s
   | OpAssign n v => n ++ c_eq :: quote qws v
+  | OpPair n v => quote qws n ++ c_eq :: quote qws v
   end.
 
 Definition operand_field (o : operand) : str :=
   match o with
   | OpWord s => s
-  | OpAssign n v => n ++ c_eq :: v
+  | OpAssign n v | OpPair n v => n ++ c_eq :: v
   end.
 
 Definition operand_ok (o : operand) : bool :=
   match o with
   | OpWord _ => true
   | OpAssign n _ => simple_word n
+  | OpPair _ _ => true
+  end.
+
+(* the inside of the parentheses of  name=(Q1 Q2 ...)  as QuotedValue prints it *)
+Definition array_body (qs : list str) : str :=
+  match qs with
+  | [] => []
+  | q :: qs' => q ++ spaced qs'
   end.
